@@ -37,7 +37,11 @@ class SetupPyWriter(DependencyWriter):
             _transformer=True,
         )
 
-        output_tree = codemod.transform_module(input_tree)
+        try:
+            output_tree = codemod.transform_module(input_tree)
+        except Exception:
+            # a list layout the codemod does not handle must not abort the run
+            return None
         if codemod.line_num_changed is None:
             return None
 
